@@ -855,7 +855,10 @@ def atoms_of(term, val):
             return atoms_of(t[2], ("eq", int(truth))) + atoms_of(t[3], ("eq", int(truth)))
         return [("bool", t, truth)]
     if truth is not None:
-        out = [("bool", t, truth)]
+        # for an integer-valued term "== 0" / "!= 0" is the same edge as false / true: emit both readings
+        out = [("bool", t, truth), ("rel", "Ne" if truth else "Eq", t, ("int", 0))]
+        if val == ("eq", 1):
+            out.append(("rel", "Eq", t, ("int", 1)))
         # PartialEq::eq / ne / PartialOrd calls as relations too
         if t[0] == "call":
             n = t[1]
@@ -1188,3 +1191,8 @@ def closure_calls(facts, clo, getters=None):
         c = t["callee"]
         out.append((c.get("def", ""), c.get("args", []), [map_term(norm(cb.origin(a), getters), f) for a in t["args"]]))
     return out
+
+
+def holds(facts, need, getters=None):
+    """is the (normalised) atom `need` implied by one of the facts?"""
+    return any(implies(atom_norm(h, getters), need) for h in facts)
